@@ -249,7 +249,38 @@ var sepsNL = []string{"\n", "\r\n", "\r", "\u2028", "\u2029", " \n ", "// c\n", 
 var noTail bool
 
 // render the tokens to text; sets nl flags. density: 0 = minimal, 1 = mixed, 2 = heavy
+// when set, every gap between two tokens (and both ends of the text) gets exactly this separator; a line
+// terminator is replaced by a space where the grammar forbids one, a required line terminator is kept
+var uniformSep string
+
+func renderUniform(toks []tok) string {
+	isLT := strings.ContainsAny(uniformSep, "\n\r\u2028\u2029")
+	var b strings.Builder
+	b.WriteString(uniformSep)
+	for i := range toks {
+		if i > 0 {
+			sep := uniformSep
+			switch {
+			case isLT && toks[i].noNL:
+				sep = " "
+			case !isLT && toks[i].mustNL:
+				sep = uniformSep + "\n" + uniformSep
+			}
+			if strings.ContainsAny(sep, "\n\r\u2028\u2029") {
+				toks[i].nl = true
+			}
+			b.WriteString(sep)
+		}
+		b.WriteString(toks[i].text)
+	}
+	b.WriteString(uniformSep)
+	return b.String()
+}
+
 func renderTokens(r *rand.Rand, toks []tok, density int, allowNL bool) string {
+	if uniformSep != "" {
+		return renderUniform(toks)
+	}
 	var b strings.Builder
 	for i := range toks {
 		sep := ""
@@ -1091,7 +1122,7 @@ func id(ix int) *N { return &N{Tag: tId, Vals: []int64{int64(ix)}, Text: idents[
 
 func runC03(env *Env) {
 	env.Import = "Otto.C03.Corr"
-	env.Rule = "pinned witnesses of every listed finding; every ordered pair of binary operators in both nestings, every unary x binary adjacency, every binary operator against ?: = postfix call new member, every pair of assignment operators; boundary numerals (2^53, 2^63, 2^64, range ends, halfway cases, every syntactic form) and random ones; every \\xHH and octal escape of every code unit below 256, every single-character escape, random strings with seeded escape forms and line continuations; every ordered pair of 41 statement forms under each way of ending a statement (semicolon, line terminator, nothing before } or end of input); every statement form as the last statement of a FunctionBody x 24 endings (// comment without line terminator, /* */, LS, PS, CR, CRLF, white space) through parser.ParseFunction, a function declaration in a program, new Function(...) and Function(...); a regular expression literal (patterns starting with = so that the scanner first reads /=, and others, with and without flags) ending each kind of statement x each statement end (; each line terminator, comment + line terminator, }, end of input) x 14 following statement forms incl. prefix ++/--; every sequence of up to four member / index / call / new(args) / new steps (780 chains, nested new included) alone and as operands; 36 expression slots of all statement forms x 32 classes of expression (comma, in, assignment, conditional with in in each operand, relational, function / object / array / regexp literals); label stacks of depth 1-3 on 15 statement forms with break / continue to each label from every nesting path of up to two of 16 wrappers (blocks, ifs, switch clauses, try/catch/finally, nested loops, nested labelled statements, with), also inside functions; object-literal property names drawn from every reserved word, future reserved word, literal keyword, get/set and string / numeric names, as data property, getter, setter and function-valued property, alone and mixed; token adjacency: every run [postfix] binary-operator [prefix [prefix]], assignment-operator prefix, ?: / call / index with prefixes and binary operator next to a regular expression literal, rendered with NO white space except where two tokens would fuse (a<!--b, a-->b, a+++b, a- -b, x/ /re/) and again with seeded white space; regular expression literals over 27 character-class shapes (unescaped [ / inside a class, escaped brackets, classes next to groups) x flags, followed by division, member access, call, inside arrays and argument lists; nests of depth 2-3 of switch / loops / function / labelled block / labelled loop / try / finally / if with every valid jump placed after each inner construct has closed, at every level, bare and guarded, at top level and inside a function; the strict-mode-only future reserved words (implements interface let package private protected public static yield) as ordinary identifiers in non-strict code - first token of a statement, label, variable, function and parameter name, catch parameter, for-in target, property name - right after, inside the sibling of, and around functions whose body opens with a use-strict directive (declaration, expression ended by ; / line terminator / nothing, accessor, nested), and after strings that only look like the directive; EVERY source is parsed with a nil file.FileSet and as 1st, 2nd and a later file of a shared FileSet and must give the same tree and statement offsets without panic; then random function bodies through the same entry points, random expression trees of depth <= 6 and random programs (all ES5 statement forms, function/array/object literals with getters and setters, for-header no-in contexts) each rendered with seeded redundant parentheses, white space, comments, line terminators and literal spellings; non-trivial = distinct rendering whose tree has depth >= 3 (expressions), >= 2 statements or depth >= 4 (programs), every literal case"
+	env.Rule = "pinned witnesses of every listed finding; every ordered pair of binary operators in both nestings, every unary x binary adjacency, every binary operator against ?: = postfix call new member, every pair of assignment operators; boundary numerals (2^53, 2^63, 2^64, range ends, halfway cases, every syntactic form) and random ones; every \\xHH and octal escape of every code unit below 256, every single-character escape, random strings with seeded escape forms and line continuations; every ordered pair of 41 statement forms under each way of ending a statement (semicolon, line terminator, nothing before } or end of input); every statement form as the last statement of a FunctionBody x 24 endings (// comment without line terminator, /* */, LS, PS, CR, CRLF, white space) through parser.ParseFunction, a function declaration in a program, new Function(...) and Function(...); a regular expression literal (patterns starting with = so that the scanner first reads /=, and others, with and without flags) ending each kind of statement x each statement end (; each line terminator, comment + line terminator, }, end of input) x 14 following statement forms incl. prefix ++/--; every sequence of up to four member / index / call / new(args) / new steps (780 chains, nested new included) alone and as operands; 36 expression slots of all statement forms x 32 classes of expression (comma, in, assignment, conditional with in in each operand, relational, function / object / array / regexp literals); label stacks of depth 1-3 on 15 statement forms with break / continue to each label from every nesting path of up to two of 16 wrappers (blocks, ifs, switch clauses, try/catch/finally, nested loops, nested labelled statements, with), also inside functions; object-literal property names drawn from every reserved word, future reserved word, literal keyword, get/set and string / numeric names, as data property, getter, setter and function-valued property, alone and mixed; token adjacency: every run [postfix] binary-operator [prefix [prefix]], assignment-operator prefix, ?: / call / index with prefixes and binary operator next to a regular expression literal, rendered with NO white space except where two tokens would fuse (a<!--b, a-->b, a+++b, a- -b, x/ /re/) and again with seeded white space; regular expression literals over 27 character-class shapes (unescaped [ / inside a class, escaped brackets, classes next to groups) x flags, followed by division, member access, call, inside arrays and argument lists; nests of depth 2-3 of switch / loops / function / labelled block / labelled loop / try / finally / if with every valid jump placed after each inner construct has closed, at every level, bare and guarded, at top level and inside a function; the strict-mode-only future reserved words (implements interface let package private protected public static yield) as ordinary identifiers in non-strict code - first token of a statement, label, variable, function and parameter name, catch parameter, for-in target, property name - right after, inside the sibling of, and around functions whose body opens with a use-strict directive (declaration, expression ended by ; / line terminator / nothing, accessor, nested), and after strings that only look like the directive; every white-space code point of ES5 7.2 (TAB VT FF SP NBSP BOM U+1680 U+2000..U+200A U+202F U+205F U+3000) and every line terminator (LF CR CRLF LS PS) as THE separator between every two tokens and at both ends of 60 programs and expressions that contain every pair of token kinds; every spelling of a numeric literal at a line end (each line terminator, end of input) before var / else / while / ++ / -- / a literal / } in seven statement contexts; EVERY source is parsed with a nil file.FileSet and as 1st, 2nd and a later file of a shared FileSet and must give the same tree and statement offsets without panic; then random function bodies through the same entry points, random expression trees of depth <= 6 and random programs (all ES5 statement forms, function/array/object literals with getters and setters, for-header no-in contexts) each rendered with seeded redundant parentheses, white space, comments, line terminators and literal spellings; non-trivial = distinct rendering whose tree has depth >= 3 (expressions), >= 2 statements or depth >= 4 (programs), every literal case"
 	env.Extra["forced_coverage"] = map[string]int{"binary_operator_pairs": len(binops) * len(binops) * 2, "unary_binary": len(unops) * len(binops) * 2,
 		"assignment_pairs": len(asgops) * len(asgops), "statement_forms": 41, "escape_sweep_units": 256, "function_body_endings": len(bodySuffixes)}
 	g := &gen{env: env, r: env.Rng, cov: map[string]int{}}
@@ -1188,6 +1219,8 @@ func runC03(env *Env) {
 	g.regexClasses()
 	g.contextFlags()
 	g.strictWords()
+	g.whiteSpaceGrid()
+	g.numericLineEnds()
 	propertyNames(g)
 	g.functionBodies(sampleStatements)
 	g.regexStatementEnds()
